@@ -340,6 +340,37 @@ def load_corpus():
   return out
 
 
+def long_history_probe(ctx):
+  """Long histories (hundreds of steps) on small tensors, float32 and bfloat16 parameters: the covering
+  accumulator must stay above the exact discounted sum of squares (up to the rounding of a float32
+  accumulation).  Implementation-side only: the Coq model is exact arithmetic and the short histories
+  already tie it to the code; what this adds is the regime where an accumulator kept in a short
+  mantissa stalls (added after a seeded change that allocated the accumulators in the parameter dtype
+  was missed)."""
+  quick = ctx.tier == "quick"
+  cases = []
+  for i, (shape, dtype, beta2, hist) in enumerate([
+      ([5], "bfloat16", 1.0, "const"), ([3, 4], "bfloat16", 1.0, "const"), ([5], "bfloat16", 0.999, "normal"),
+      ([5], "float32", 1.0, "const"), ([2, 3, 2], "bfloat16", 1.0, "normal"), ([4], "float32", 0.999, "normal")]):
+    cases.append(dict(id=i, shape=shape, dtype=dtype, beta2=beta2, hist=hist, T=400 if quick else 1500,
+                      every=50, seed=ctx.rng.next()))
+  res = common.run_worker("harness.impl.c12_long_worker", dict(cases=cases), timeout=1800)["results"]
+  for c, r in zip(cases, res):
+    ctx.count("long-history probes")
+    if "exc" in r:
+      ctx.violation("impl-violates", dict(input=c, expected="sm3 runs", actual=r["exc"],
+                                          theorem_or_check="long-history probe (c12_long_worker)"))
+      continue
+    # float32 accumulation of T terms: relative error <= T * 2^-24; bfloat16 gradients are squared in
+    # bfloat16 by the implementation (2^-9 relative per term, both signs): allow 2^-7
+    tol = 2.0 ** -7 if c["dtype"] == "bfloat16" else c["T"] * 2.0 ** -23
+    if r["worst"] and r["worst"]["rel"] > tol:
+      ctx.violation("impl-violates", dict(
+          input=c, expected="covering accumulator >= exact discounted sum of squares (relative slack %.3g)" % tol,
+          actual=r["worst"], accumulator_dtype=r.get("acc_dtype"),
+          theorem_or_check="long-history probe (c12_long_worker); c12 cover theorems"))
+
+
 def translator_obligations(ctx):
   """Regenerate the translation of sm3._moving_averages / _moving_averages_momentum from /repo and re-prove
   it equal to C12.Ref (linked to the model by c12_source_moving_averages_is_model)."""
@@ -385,6 +416,7 @@ def run(ctx):
   ctx.cov["tolerances"] = dict(tau_f32=float(TAU), tau_update_squared=float(TAU_U2))
   ctx.proofs(PROPS, extra_targets=EXTRA)
   translator_obligations(ctx)
+  long_history_probe(ctx)
   known = common.load_known_findings("C12")
   corpus = load_corpus()
   cases = gen_cases(ctx)
